@@ -113,8 +113,7 @@ INTERNAL = (
      'eval-stack-underflow'),
     (re.compile(r"'NoneType' object has no attribute '(parent|vars|params|"
                 r"globals|return_addr|constants)'"), 'call-stack-underflow'),
-    (re.compile(r"at instruction None|list index out of range"),
-     'pc-outside-image'),
+    (re.compile(r"at instruction None"), 'pc-outside-image'),
     (re.compile(r"'LoopFrame' object has no attribute|'StackFrame' object "
                 r"has no attribute"), 'frame-confusion'),
 )
@@ -232,7 +231,9 @@ def evaluate(acc, text, must_reject=None, label='soup'):
         signal.alarm(0)
     labels = [label, 'accepted']
     internal = None
-    if result.aborted:
+    if result.bad_pc is not None:
+        internal = 'pc-outside-image'
+    if result.aborted and internal is None:
         internal = classify_abort(result.aborted)
         labels.append('aborted-internal' if internal else 'aborted-script-fault')
     acc.case(key=key, nontrivial=nontrivial, labels=labels,
@@ -244,8 +245,10 @@ def evaluate(acc, text, must_reject=None, label='soup'):
                  'rejected {!r}'.format(text[:200]), case)
     elif internal:
         acc.fail('vm-internal:' + internal,
-                 'accepted script {!r} hit an internal fault: {}'.format(
-                     text[:300], result.aborted), case)
+                 'accepted script {!r} hit an internal fault: {} {}'.format(
+                     text[:300], result.aborted,
+                     '' if result.bad_pc is None
+                     else 'pc = {}'.format(result.bad_pc)), case)
 
 
 # ---- generators ---------------------------------------------------------------------
